@@ -8,7 +8,7 @@ import (
 	"testing"
 	"time"
 
-	"github.com/gotid/god/internal/vrt"
+	vrt "github.com/gotid/god"
 	"github.com/gotid/god/lib/timex"
 )
 
